@@ -4,7 +4,7 @@ From AL Require Import Base.CaseLib C16.Model C16.Spec.
 Import ListNotations.
 
 Inductive oobs := BAdded | BRejected | BItem (q : Qc) | BStop | BRaise (e : string).
-Definition out_eqb (o : oobs) (m : out) : bool :=
+Definition out_eqb (o : oobs) (m : out Qc_addable) : bool :=
   match o, m with
   | BAdded, OAdded => true
   | BRejected, ORejected => true
@@ -12,14 +12,14 @@ Definition out_eqb (o : oobs) (m : out) : bool :=
   | BStop, OStop => true
   | _, _ => false
   end.
-Fixpoint outs_eqb (o : list oobs) (m : list out) : bool :=
+Fixpoint outs_eqb (o : list oobs) (m : list (out Qc_addable)) : bool :=
   match o, m with
   | [], [] => true
   | a :: o', b :: m' => out_eqb a b && outs_eqb o' m'
   | _, _ => false
   end.
 
-Record mcase := MC { m_keep : bool; m_zero : Qc; m_ops : list op; m_obs : list oobs }.
+Record mcase := MC { m_keep : bool; m_zero : Qc; m_ops : list (op Qc_addable); m_obs : list oobs }.
 Definition corr_mix (c : mcase) : bool := outs_eqb (m_obs c) (run (m_keep c) (m_zero c) init (m_ops c)).
 Definition holds_mix (c : mcase) : bool :=
   outs_eqb (m_obs c) (spec_run (m_keep c) (m_zero c) [] 0 false (m_ops c)).
@@ -57,3 +57,46 @@ Definition corr_ctlv (c : vcase) : bool := list_eqb cval_eqb (v_obs c) (crun (v_
 Definition holds_ctlv (c : vcase) : bool := list_eqb cval_eqb (v_obs c) (cspec_run (v_v0 c) [] (v_ops c)).
 Definition corr_ctlvs (l : list vcase) : bool := forallb corr_ctlv l.
 Definition holds_ctlvs (l : list vcase) : bool := forallb holds_ctlv l.
+
+(* Round 3: the mixer over value kinds whose "+" is not the rational one.  The model / spec / theorem are generic in
+   (carrier, madd); two more instances are tied to the code:
+   - sequences (str '' / bytes b'' / tuple () zeros with str / bytes / tuple items): the free monoid list Z with
+     concatenation - NOT commutative, so the order "zero, then the playing events in the order they were added" is
+     observable;
+   - IEEE binary64 floats with the primitive addition: not associative, so a compensated or re-ordered summation is
+     observable in the last bit (strict left-to-right zero + e1 + e2 + ...). *)
+From Coq Require Import PrimFloat.
+Canonical Structure Seq_addable := Addable (list Z) (@app Z).
+Canonical Structure Flt_addable := Addable float PrimFloat.add.
+Definition seq_eqb (a b : list Z) : bool := list_eqb Z.eqb a b.
+(* same float, +0 and -0 told apart by their reciprocals (the generated values never produce nan) *)
+Definition flt_eqb (a b : float) : bool := (PrimFloat.eqb a b && PrimFloat.eqb (1 / a) (1 / b))%float.
+
+Section Generic.
+  Variable M : addable.
+  Variable eqb : M -> M -> bool.
+  Inductive gobs := GAdded | GRejected | GItem (q : M) | GStop | GRaise (e : string).
+  Definition gout_eqb (o : gobs) (m : out M) : bool :=
+    match o, m with
+    | GAdded, OAdded => true
+    | GRejected, ORejected => true
+    | GItem a, OItem b => eqb a b
+    | GStop, OStop => true
+    | _, _ => false
+    end.
+  Fixpoint gouts_eqb (o : list gobs) (m : list (out M)) : bool :=
+    match o, m with
+    | [], [] => true
+    | a :: o', b :: m' => gout_eqb a b && gouts_eqb o' m'
+    | _, _ => false
+    end.
+  Record gcase := GC { g_keep : bool; g_zero : M; g_ops : list (op M); g_obs : list gobs }.
+  Definition corr_g (c : gcase) : bool := gouts_eqb (g_obs c) (run (g_keep c) (g_zero c) init (g_ops c)).
+  Definition holds_g (c : gcase) : bool := gouts_eqb (g_obs c) (spec_run (g_keep c) (g_zero c) [] 0 false (g_ops c)).
+End Generic.
+Arguments GAdded {M}. Arguments GRejected {M}. Arguments GItem {M} _. Arguments GStop {M}. Arguments GRaise {M} _.
+Arguments GC {M} _ _ _ _.
+Definition corr_seq := corr_g Seq_addable seq_eqb.
+Definition holds_seq := holds_g Seq_addable seq_eqb.
+Definition corr_flt := corr_g Flt_addable flt_eqb.
+Definition holds_flt := holds_g Flt_addable flt_eqb.
